@@ -312,8 +312,9 @@ func RunOut(sched []EnvStep, o OutOpts) *OutResult {
 				cmu.Lock()
 				res.Cancelled = true
 				cmu.Unlock()
-				rec.add(TraceEv{"e": "Cancel"})
+				rec.add(TraceEv{"e": "CancelStart"})
 				h.Cancel()
+				rec.add(TraceEv{"e": "CancelEnd"})
 			}
 		case "Close":
 			if !closed {
